@@ -611,20 +611,28 @@ class IH5Group(IH5InnerNode):
             if isinstance(prev_val, (IH5Group, IH5Dataset)):
                 raise ValueError("Path exists, in order to replace - delete first!")
 
-        if path in self._files[-1] and _node_is_del_mark(
-            self._get_child_raw(path, self._last_idx)
-        ):
-            # remove deletion marker in latest patch, if set
-            del self._files[-1][path]
-        elif path not in self._files[-1]:
-            # create path and overwrite-group in latest patch
-            self._create_virtual(path)
-            assert path in self._files[-1]
-            del self._files[-1][path]
-
-        self._files[-1].create_dataset(  # actually create it, finally
-            path, shape=shape, dtype=dtype, data=data, **kwargs
+        # First create the dataset under a temporary name ('@' cannot occur in user keys):
+        # if h5py refuses the value, nothing has been touched yet - in particular no
+        # deletion marker has been removed and no intermediate group has been created.
+        tmp_path = "/@new_dataset"
+        self._files[-1].create_dataset(
+            tmp_path, shape=shape, dtype=dtype, data=data, **kwargs
         )
+        try:
+            if path in self._files[-1] and _node_is_del_mark(
+                self._get_child_raw(path, self._last_idx)
+            ):
+                # remove deletion marker in latest patch, if set
+                del self._files[-1][path]
+            elif path not in self._files[-1]:
+                # create path and overwrite-group in latest patch
+                self._create_virtual(path)
+                assert path in self._files[-1]
+                del self._files[-1][path]
+            self._files[-1].move(tmp_path, path)  # actually put it in place, finally
+        except Exception:
+            del self._files[-1][tmp_path]
+            raise
         return IH5Dataset(self._record, path, self._last_idx)
 
     def require_group(self, name: str) -> IH5Group:
